@@ -47,6 +47,14 @@ func jobsFor(prop, tier string) []*Job {
 				add(&Job{Name: fmt.Sprintf("O3-idle/tpt=%d", t), Pkg: "ratelimit", Harness: "VerifC13Idle", Params: p("tpt", t), SkipInc: true, TimeoutS: 120, IncMs: 500, Bounds: b, Inductive: true})
 			}
 		}
+		if prop == "C03" {
+			k := 3
+			for _, rt := range [][2]int{{1, 5}, {2, 3}} {
+				add(&Job{Name: fmt.Sprintf("O3-windows/k=%d,rate=%d/s,burst=%d", k, rt[0], rt[1]), Pkg: "ratelimit", Harness: "VerifC03Windows", Grid: 1e9,
+					Params: p("k", k, "average", rt[0], "burst", rt[1], "maxgap", 40, "t0span", 3), TimeoutS: 120,
+					Bounds: fmt.Sprintf("%d requests of one source through the real TokenLimiter (TTL map + bucket set), rate %d/s burst %d, symbolic amounts in [1,burst], symbolic gaps up to 41 s with nanosecond remainder (beyond the 11 s entry lifetime); every sub-window (i,j]", k, rt[0], rt[1])})
+			}
+		}
 		if prop == "C13" {
 			add(&Job{Name: "O1O2O4-bucket/tpt=symbolic", Pkg: "ratelimit", Harness: "VerifC13Bucket", Params: p("tpt", 0), SkipInc: true, TimeoutS: 120, IncMs: 500, Inductive: true,
 				Bounds: fmt.Sprintf(bd, "symbolic in [1,2^36] ns/token")})
@@ -162,6 +170,14 @@ func jobsFor(prop, tier string) []*Job {
 			add(&Job{Name: fmt.Sprintf("O2-reset/n=%d", n), Pkg: "roundrobin", Harness: "VerifC10Reset", Params: p("n", n), TimeoutS: 120,
 				Bounds: fmt.Sprintf("add / re-weight / remove through the rebalancer from an arbitrary J-state, n=%d", n)})
 		}
+	case "C14":
+		k := 3
+		if thorough {
+			k = 4
+		}
+		add(&Job{Name: fmt.Sprintf("O1-selfcomp-rate/k=%d,nsrc=3,cap=3", k), Pkg: "ratelimit", Harness: "VerifC14SelfComp", Grid: 1e9,
+			Params: p("k", k, "nsrc", 3, "capacity", 3, "average", 1, "burst", 2, "maxgap", 14, "t0span", 3), TimeoutS: 120,
+			Bounds: fmt.Sprintf("rate limiter 1/s burst 2, capacity 3, %d requests from 3 sources chosen symbolically, symbolic amounts and gaps (up to 15 s, beyond the entry lifetime): source A's decisions equal those it gets alone", k)})
 	}
 	return js
 }
